@@ -13,7 +13,7 @@ import (
 )
 
 var (
-	quick    = copyh.FBudget{Rand: 600, Shared: 400, Sched: 230, SchedShared: 300, Shared2: 200, SchedShared2: 230, Reps: 0}
+	quick    = copyh.FBudget{Rand: 520, Shared: 340, Sched: 200, SchedShared: 260, Shared2: 200, SchedShared2: 230, Reps: 0}
 	thorough = copyh.FBudget{Rand: 3000, Shared: 2500, Sched: 1000, SchedShared: 1500, Shared2: 1200, SchedShared2: 1500, Reps: 1, Exh: 25, ExhReps: 4, Exh2: 6}
 )
 
